@@ -299,7 +299,65 @@ fn local_decl_programs(rng: &mut Rng, count: usize) -> Vec<String> {
     ] {
         v.push(format!("{}{}\n", PRELUDE, s));
     }
-    for _ in 0..count {
+    // ALL names unused, values in the order kept-non-call, call, kept-non-call (each non-call value has an
+    // observable effect through a metamethod or an inner call): `expressions_as_statement` must keep the
+    // evaluation order — `do local _ = v1; call(); local _ = v2 end`
+    let noncalls = ["t.k", "t[1]", "{get1()}", "x + 1", "#t", "o.z", "o[1]", "o + 1", "1 + o", "#o", "o .. 'z'", "-o", "o == o2", "o < o2", "{o.z}", "`{o}`"];
+    let calls = ["f2()", "(f2())", "get1()", "sink(o.z)", "o()", "o:m()"];
+    let name_lists = ["a", "a, b", "a, b, c", "a, b, c, d"];
+    let mut k = 0usize;
+    for (i, v1) in noncalls.iter().enumerate() {
+        for (j, v2) in noncalls.iter().enumerate() {
+            let call = calls[(i + 2 * j) % calls.len()];
+            let names = name_lists[(i + j) % name_lists.len()];
+            let decl = match k % 4 {
+                0 => format!("local {} = {}, {}, {}", names, v1, call, v2),
+                1 => format!("local {} = {}, {}, {}, {}", names, v1, call, v2, calls[(i + j + 1) % calls.len()]),
+                2 => format!("local {} = {}, {}, {}, {}", names, call, v1, calls[(i + j + 1) % calls.len()], v2),
+                _ => format!("local {} = {}, {}, {}, {}", names, v1, v2, call, noncalls[(i + j + 3) % noncalls.len()]),
+            };
+            let prog = match k % 3 {
+                0 => format!("{}{}o.m = function(self) emit('m') return 2 end\n{}\nreturn 1\n", PRELUDE, OBJ_PRELUDE, decl),
+                1 => format!("{}{}o.m = function(self) emit('m') return 2 end\ndo\n{}\nend\nemit('after')\nreturn 2\n", PRELUDE, OBJ_PRELUDE, decl),
+                _ => format!("{}{}o.m = function(self) emit('m') return 2 end\nlocal function w(...)\n{}\nreturn 3\nend\nreturn w(7, 8)\n", PRELUDE, OBJ_PRELUDE, decl),
+            };
+            v.push(prog);
+            k += 1;
+        }
+    }
+    for s in [
+        "local a, b, c = t.k, f2(), t[1]",
+        "local a = {get1()}, f2(), {get1()}",
+        "local a, b = x + 1, (f2()), #t, {get1()}",
+        "local a = o.z, get1(), o + 1, f2(), #o",
+        "local a, b, c = {get1()}, {get1()}, sink(1), {get1()}, o .. 'z'",
+    ] {
+        v.push(format!("{}{}{}\nreturn 1\n", PRELUDE, OBJ_PRELUDE, s));
+    }
+    for n in 0..count {
+        if n % 4 == 3 {
+            // every name unused: force non-call, call, non-call among the values (random extras around them)
+            let nn = 1 + rng.below(3);
+            let names: Vec<&str> = (0..nn).map(|i| names_pool[i]).collect();
+            let mut vals: Vec<&str> = Vec::new();
+            for _ in 0..rng.below(2) { vals.push(*rng.pick(&values)); }
+            vals.push(*rng.pick(&noncalls));
+            for _ in 0..rng.below(2) { vals.push(*rng.pick(&values)); }
+            vals.push(*rng.pick(&calls));
+            for _ in 0..rng.below(2) { vals.push(*rng.pick(&values)); }
+            vals.push(*rng.pick(&noncalls));
+            for _ in 0..rng.below(2) { vals.push(*rng.pick(&values)); }
+            let decl = format!("local {} = {}", names.join(", "), vals.join(", "));
+            let head = format!("{}{}o.m = function(self) emit('m') return 2 end\n", PRELUDE, OBJ_PRELUDE);
+            let prog = match rng.below(4) {
+                0 => format!("{}local function v(...)\n{}\nreturn 1\nend\nreturn v(7, 8)\n", head, decl),
+                1 => format!("{}do\n{}\nend\nreturn 2\n", head, decl),
+                2 => format!("{}local n = 0\nrepeat\nn = n + 1\n{}\nuntil n > 1\nreturn n\n", head, decl),
+                _ => format!("{}local function v(...)\n{}\nemit('tail')\nend\nv(1)\nreturn 3\n", head, decl),
+            };
+            v.push(prog);
+            continue;
+        }
         let nn = 1 + rng.below(3);
         let nv = rng.below(5);
         let dup = rng.chance(1, 8);
@@ -334,6 +392,42 @@ fn local_decl_programs(rng: &mut Rng, count: usize) -> Vec<String> {
             _ => format!("{}{}{}return a\n", PRELUDE, outer, body),
         };
         v.push(prog);
+    }
+    v
+}
+
+/// string / number spellings whose value depends on the decoder, in the positions where the default rules
+/// evaluate or rewrite them: operands of `..`, `#`, `==`, comparisons, index keys, table keys, conditions
+pub const STRING_SPELLINGS: [&str; 30] = [
+    "\"\\0011\"", "'\\0120'", "\"\\0490\"", "'\\1000'", "\"\\65\\066\"", "'\\9\\10'", "\"\\255\"", "'a\\0001b'",
+    "\"\\x41\"", "'\\x4a4'", "\"\\x311\"", "\"\\u{48}\"", "'\\u{7a}1'", "\"\\u{20AC}\"", "\"\\u{0000041}\"",
+    "\"a\\z   b\"", "'a\\z\n  b'", "\"a\\\nb\"", "'\\a\\b\\f\\n\\r\\t\\v'", "\"\\\\\\\"\\'\"", "'\\\"'",
+    "[[k]]", "[==[a]]b]==]", "[[\nk]]", "[=[\r\nk]=]", "[[a\r\nb]]", "[[\\0011]]", "'k'", "\"k1\"", "''",
+];
+pub const INTERP_SPELLINGS: [&str; 10] = [
+    "`\\0011{x}`", "`{x}\\0120`", "`\\x41{x}\\u{48}`", "`a\\z  b{x}`", "`\\{{x}\\}`", "`\\0011`", "`k`", "`\\``", "`{x}\\0490{x}\\0011`", "`\\65\\0660`",
+];
+pub const NUMBER_SPELLINGS: [&str; 30] = [
+    "0x10", "0XfF", "0xA_B", "0x_1", "0b101", "0B1_1", "0b_1", "1_000", "1_0.5_0", "1e3", "1E+2", "1e-2", "1_0e1_0", ".5", "5.", ".5e1",
+    "3.25", "0.1", "1e0", "0x7fffffffffffffff", "0xffffffffffffffff", "9007199254740993", "1e308", "1e-320", "0e5", "00012", "012", "0x0",
+    "1__0", "0.000_1",
+];
+
+fn literal_programs() -> Vec<String> {
+    let mut v = Vec::new();
+    for (i, s) in STRING_SPELLINGS.iter().chain(INTERP_SPELLINGS.iter()).enumerate() {
+        let other = STRING_SPELLINGS[(i * 7 + 3) % STRING_SPELLINGS.len()];
+        v.push(format!("{}return {} .. 'z', #{}, {} == '\\1' .. '1', {} == {}, {} < 'b'\n", PRELUDE, s, s, s, s, other, s));
+        v.push(format!("{}local u = {{ [ {} ] = 1, k = 2 }}\nreturn t[ {} ], u[ {} ], u.k\n", PRELUDE, s, s, s));
+        v.push(format!("{}if {} == 'k' then emit('eq') else emit('ne') end\nwhile #{} > 5 do emit('w') break end\nreturn #({} .. {})\n", PRELUDE, s, s, s, other));
+        v.push(format!("{}local function g(a) return a end\nemit({})\nreturn g({}), (g {}), ({}):len()\n", PRELUDE, s, s, if s.starts_with('`') { "'p'" } else { s }, s));
+        v.push(format!("{}local unused = {}\nlocal s = {}\nreturn s .. x, x .. {}\n", PRELUDE, s, s, s));
+    }
+    for (i, n) in NUMBER_SPELLINGS.iter().enumerate() {
+        let other = NUMBER_SPELLINGS[(i * 11 + 5) % NUMBER_SPELLINGS.len()];
+        v.push(format!("{}return {}, {} + 1, {} == {}, {} < {}, -{}, {} .. ''\n", PRELUDE, n, n, n, other, n, other, n, n));
+        v.push(format!("{}local u = {{ [ {} ] = 'v' }}\nreturn t[ {} ], u[ {} ], {} * 2 // 1, {} % 7\n", PRELUDE, n, n, n, n, n));
+        v.push(format!("{}if {} > 1 then emit('gt') elseif {} == 0 then emit('z') else emit('le') end\nfor i = 1, 2 do emit(i * {}) end\nreturn 1\n", PRELUDE, n, n, n));
     }
     v
 }
@@ -629,6 +723,9 @@ pub fn targeted(seed: u64, thorough: bool) -> Vec<Targeted> {
             rules: vec!["remove_nil_declaration", "remove_unused_variable", "remove_unused_if_branch", "compute_expression"],
             pipeline: i % 7 == 0,
         });
+    }
+    for p in literal_programs() {
+        out.push(Targeted { family: "literal-spelling", code: p, rules: vec!["compute_expression", "convert_index_to_field", "remove_unused_if_branch", "remove_unused_while", "remove_unused_variable", "remove_nil_declaration", "remove_function_call_parens"], pipeline: true });
     }
     for p in underscore_programs() {
         out.push(Targeted { family: "underscore", code: p, rules: vec!["remove_unused_variable", "rename_variables", "remove_nil_declaration"], pipeline: true });
